@@ -4,6 +4,7 @@ import functools
 import inspect
 import textwrap
 from collections.abc import MutableMapping, MutableSequence, MutableSet
+from types import MethodType
 from typing import Any, Callable, Iterable, Optional
 
 from spec_classes.errors import FrozenInstanceError
@@ -490,6 +491,8 @@ class DeepCopyMethod(MethodDescriptor):
         new = self.__class__.__new__(self.__class__)
         for attr, value in self.__dict__.items():
             if inspect.ismethod(value) and value.__self__ is self:
+                # Methods bound to this instance are re-bound to the copy.
+                new.__dict__[attr] = MethodType(value.__func__, new)
                 continue
             attr_spec = self.__spec_class__.attrs.get(attr)
             if attr_spec and attr_spec.do_not_copy:
